@@ -176,6 +176,13 @@ func (j *CtxJudge) paramWhy(prm *ssa.Parameter, depth int) string {
 			if e.Site == nil {
 				continue
 			}
+			// a compiler-made wrapper of fn that nothing calls (the
+			// pointer-receiver form of a value method, an unused thunk)
+			if cf := e.Caller.Func; cf != nil && cf.Synthetic != "" && unwrapBound(cf) == fn {
+				if cn := j.P.graph().Nodes[cf]; cn == nil || len(cn.In) == 0 {
+					continue
+				}
+			}
 			cc := e.Site.Common()
 			args := cc.Args
 			if cc.IsInvoke() {
@@ -185,9 +192,13 @@ func (j *CtxJudge) paramWhy(prm *ssa.Parameter, depth int) string {
 			if len(args) != len(fn.Params) {
 				continue
 			}
-			n++
 			cr := NewResolver(j.P)
-			if ok, why := j.okOrg(cr, cr.Of(args[idx]), depth+1); !ok {
+			ok, why := j.okOrg(cr, cr.Of(args[idx]), depth+1)
+			if cf := e.Caller.Func; !ok && cf != nil && cf.Synthetic != "" && strings.Contains(why, "has no caller in the program") {
+				continue // a compiler-made wrapper that nothing calls
+			}
+			n++
+			if !ok {
 				res = fmt.Sprintf("context parameter %s of %s receives, at %s, a context that is not the group context (%s)", prm.Name(), funcDisplayName(fn), j.P.InstrPos(e.Site), why)
 				break
 			}
